@@ -39,8 +39,9 @@ func genC20(g *Gen) *Plan {
 			Compresses: []CompressCfg{{Name: "cp", Levels: map[string]uint{"gzip": uint(1 + variant%3*3), "br": uint(1 + variant%2*4)}}},
 			Caches:     []CacheCfg{{Name: "c1", Size: pick(g, 1000, 1000, 16), HitForPass: "1s", Store: store}},
 			Upstreams:  []UpstreamCfg{{Name: "u1", Policy: "first", Servers: []UpstreamSrv{{Addr: "http://" + originA}}}},
-			Locations:  []LocationCfg{{Name: "l1", Upstream: "u1", RespHeaders: []string{"X-Loc:l1"}}, {Name: "lx", Upstream: "u1", Prefixes: []string{"/unused"}}},
-			Servers:    []ServerCfg{{Addr: srvAddr, Locations: []string{"l1", "lx"}, Cache: "c1", Compress: "cp", CompressMinLength: "100"}},
+			// (the rewrite maps every path to itself: the rewriter runs for every forwarded request)
+			Locations: []LocationCfg{{Name: "l1", Upstream: "u1", RespHeaders: []string{"X-Loc:l1"}, Rewrites: []string{"/m*:/m$1"}, QueryStrings: nil}, {Name: "lx", Upstream: "u1", Prefixes: []string{"/unused"}}},
+			Servers:   []ServerCfg{{Addr: srvAddr, Locations: []string{"l1", "lx"}, Cache: "c1", Compress: "cp", CompressMinLength: "100"}},
 		}
 		if variant%2 == 1 {
 			c.Locations[1].RespHeaders = []string{"X-Unused:1"}
